@@ -35,7 +35,8 @@ def main():
     ap.add_argument("--also", nargs="*", default=[])
     ap.add_argument("--src", default=None)
     a = ap.parse_args()
-    src = a.src or "/tmp/seed-%s/_seed/%s" % (a.prop, a.n)
+    root = os.environ.get("SEED_ROOT", "/tmp/seed-")
+    src = a.src or "%s%s/_seed/%s" % (root, a.prop, a.n)
     name = "%s-%s" % (a.prop, a.n)
     patch = os.path.join(src, "patch.diff")
     demos = [f for f in os.listdir(src) if f.startswith("demo") or f.startswith("test_")]
@@ -44,7 +45,7 @@ def main():
         return 2
     demo = os.path.join(src, sorted(demos)[0])
     # everything happens in the sub-agent's own scratch worktree (demos may insist on that path)
-    tmp = "/tmp/seed-%s" % a.prop
+    tmp = "%s%s" % (root, a.prop)
     evtmp = tempfile.mkdtemp(prefix="seedeval-")
     meta = {"seed": name, "property": a.prop, "ran": []}
     try:
